@@ -18,10 +18,22 @@ class Refs:
         self.memo = {}
         self.stats = {'queries': 0, 'memo_hits': 0, 'unresolved': 0, 'disagree': 0, 'errors': 0, 'sat': 0, 'unsat': 0}
         self.last_raw = None
+        self._zctx, self._zn = None, 0
 
     # ---------------------------------------------------------------- individual solvers
     def _z3(self, text):
-        ctx = z3.Context()
+        # Creating a z3 context costs ~40 ms, a small query ~1 ms: the context is shared by up to 400 queries. A definitive
+        # answer is a semantic fact whichever context produced it; a non-definitive one is re-asked in a fresh context, so
+        # that 'unresolved' stays a function of the query text alone.
+        if self._zctx is None or self._zn >= 400:
+            self._zctx, self._zn = z3.Context(), 0
+        self._zn += 1
+        r = self._z3_in(text, self._zctx)
+        if r not in ('sat', 'unsat'):
+            r = self._z3_in(text, z3.Context())
+        return r
+
+    def _z3_in(self, text, ctx):
         s = z3.Solver(ctx=ctx)
         s.set('rlimit', self.z3_rlimit)
         try:
